@@ -31,7 +31,7 @@ Definition code_fixed_F29 := true.
    harness detects by itself which bytes the code under test signs *)
 Definition code_fixed_F28 := false.
 (* proposed_fixes/C08-N1.diff (no TLS session resumption: SessionTicketsDisabled) *)
-Definition code_fixed_C08N1 := false.
+Definition code_fixed_C08N1 := true.
 Definition code_fx : fixes := mkfixes code_fixed_F09 code_fixed_F28 code_fixed_F29 code_fixed_C08N1.
 
 Fixpoint keys_eqb (a b : list key) : bool :=
